@@ -177,6 +177,143 @@ async def episode(loop: vloop.VirtualLoop, ctx, pid: str, trial: int) -> None:
     air.close()
 
 
+async def episode_mqtt(loop: vloop.VirtualLoop, ctx, pid: str, trial: int) -> None:
+    """The same client-boundary judgement with the gateway on the MQTT transport (a RAMSES_ESP stick behind a
+    broker): publishes are the writes, '{ts, msg}' envelopes on the rx topic are the reads; echoes and replies are
+    lost / delayed by a seeded script; the status topic may flap (offline pauses the protocol, online resumes it)."""
+    import json
+
+    from ramses_rf import Gateway
+    from ramses_tx import Command
+    from ramses_tx.const import Priority
+
+    from .boundary import FakeMqttClient, mqtt_patched
+
+    rng = random.Random(f"qosmqtt/{ctx.seed}/{trial}")
+    script = Script(rng)
+    topic = f"RAMSES/GATEWAY/{GWY_ID}"
+    meta = {"seed": ctx.seed, "trial": trial, "transport": "mqtt", "p_echo_lost": script.p_echo, "p_reply_lost": script.p_rply, "delay": script.delay}
+    history: list[dict[str, Any]] = []
+    pubs: list[tuple[float, str]] = []
+    with mqtt_patched():
+        n0 = len(FakeMqttClient.instances)
+        gwy = Gateway("mqtt://u:p@127.0.0.1:1883", config={"disable_discovery": True})
+
+        def online() -> None:
+            if len(FakeMqttClient.instances) > n0:
+                FakeMqttClient.instances[-1].deliver(topic, b"online")
+            else:
+                loop.call_later(0.01, online)
+
+        loop.call_later(0.01, online)
+        await asyncio.wait_for(gwy.start(), timeout=30)
+        client = FakeMqttClient.instances[-1]
+
+        def rx(frame: str, rssi: str = "045") -> None:
+            ts = vloop.make_virtual_datetime(vloop.current).now().isoformat(timespec="microseconds")
+            client.deliver(topic + "/rx", json.dumps({"ts": ts, "msg": f"{rssi} {frame}"}).encode())
+
+        orig_publish = client.publish
+
+        def publish(tp: str, payload: str | None = None, qos: int = 0):  # type: ignore[no-untyped-def]
+            ret = orig_publish(tp, payload, qos)
+            try:
+                frame = json.loads(payload or "{}").get("msg", "")
+            except Exception:  # noqa: BLE001
+                frame = ""
+            if not tp.endswith("/tx") or not frame:
+                return ret
+            pubs.append((loop.time(), frame))
+            echo = frame.replace("18:000730", GWY_ID, 1) if frame[7:16] == "18:000730" else frame
+            for d in script("echo", echo, "mqtt"):
+                loop.call_later(d, rx, echo, "000")
+            p_ = frame.split(" ")
+            if frame[:2] == "RQ" and p_[-5] == CTL and p_[-3] in ("30C9", "2309", "000A"):
+                idx = p_[-1][:2]
+                body = {"30C9": f"{idx}07D0", "2309": f"{idx}0834", "000A": f"{idx}1001F40DAC"}[p_[-3]]
+                reply = f"RP --- {CTL} {GWY_ID} --:------ {p_[-3]} {len(body) // 2:03d} {body}"
+            elif frame[:2] == " W" and p_[-5] == CTL and p_[-3] == "2309":
+                reply = f" I --- {CTL} {GWY_ID} --:------ 2309 003 {p_[-1]}"
+            else:
+                return ret
+            for d in script("rf", reply, "gwy"):
+                loop.call_later(0.03 + d, rx, reply)
+            return ret
+
+        client.publish = publish  # type: ignore[method-assign]
+        script.on = False
+        await asyncio.sleep(0.3)
+        n_unhandled = len(loop.unhandled)
+
+        async def call(n: int) -> None:
+            code = rng.choice(("30C9", "2309", "000A", "W2309"))
+            idx = f"{n % 12:02X}"
+            cmd = Command.from_attrs(" W", CTL, "2309", f"{idx}07D0") if code == "W2309" else Command.from_attrs("RQ", CTL, code, idx)
+            wfr, timeout, retries = rng.choice((None, True, False)), rng.choice((0.5, 1.5, 3.5, 20, 25)), rng.choice((0, 1, 3))
+            await asyncio.sleep(rng.choice((0.0, 0.0, 0.01, 0.3, 2.0)))
+            rec: dict[str, Any] = {"n": n, "cmd": str(cmd), "wait_for_reply": wfr, "timeout": timeout, "max_retries": retries, "call_vt": loop.time()}
+            history.append(rec)
+            ctx.count("mqtt.calls")
+            try:
+                pkt = await asyncio.wait_for(gwy.async_send_cmd(cmd, max_retries=retries, timeout=timeout, wait_for_reply=wfr, priority=Priority(rng.choice((-2, 0, 2)))), timeout=60)
+                rec["result"] = str(pkt)
+            except asyncio.TimeoutError:
+                rec["open"] = True
+            except Exception as err:  # noqa: BLE001
+                rec["exc"], rec["mro"], rec["where"], rec["text"] = type(err).__name__, [k.__name__ for k in type(err).__mro__], innermost_lib_frame(err), str(err)[:120]
+            rec["return_vt"] = loop.time()
+
+        script.on = True
+        tasks = [asyncio.ensure_future(call(n)) for n in range(rng.choice((1, 2, 4, 8)))]
+        if rng.random() < 0.3:  # the stick drops off the broker and comes back
+            t_off = rng.choice((0.05, 0.4, 1.5))
+            loop.call_later(t_off, client.deliver, topic, b"offline")
+            loop.call_later(t_off + rng.choice((0.1, 1.0, 6.0)), client.deliver, topic, b"online")
+            meta["status_flap"] = True
+        await asyncio.wait(tasks, timeout=120)
+        script.on = False
+        await asyncio.sleep(30.0)
+        for rec in history:
+            bound = min(rec["timeout"], 20) + SLACK
+            took = rec.get("return_vt", 1e9) - rec["call_vt"]
+            if pid == "C07":
+                if rec.get("open") or took > bound + 1e-6:
+                    ctx.violate("C07|integration-mqtt|call-did-not-end-in-bound", "on the MQTT transport a send did not finish within the caller's timeout (capped at 20 s)", {"call": rec, "bound_s": bound, "episode": meta})
+                if "exc" in rec and "ProtocolError" not in rec["mro"]:
+                    ctx.violate(f"C07|integration-mqtt|foreign-exception|{rec['exc']}|{rec['where']}", "on the MQTT transport a send raised something that is not a protocol error", {"call": rec, "episode": meta})
+                if "result" in rec:
+                    p, q = rec["cmd"].split(" "), rec["result"].split(" ")
+                    own_echo = q[0:1] + q[2:] == p[0:1] + p[2:] or (q[-3:] == p[-3:] and rec["result"][:2] == rec["cmd"][:2])
+                    own_reply = q[-3] == p[-3] and q[-6] == CTL and q[-1][:2] == p[-1][:2] and rec["result"][:2] in ("RP", " I")
+                    if not (own_echo or own_reply):
+                        ctx.violate("C07|integration-mqtt|foreign-packet-returned", "on the MQTT transport a send returned a packet that is neither its echo nor its reply", {"call": rec, "episode": meta})
+            if pid == "C08":
+                mine = [vt for vt, fr in pubs if fr.split(" ")[-3:] == rec["cmd"].split(" ")[-3:] and fr[:2] == rec["cmd"][:2]]
+                limit = 1 + min(rec["max_retries"], 3)
+                ctx.count("mqtt.publishes", len(mine))
+                if len(mine) > limit:
+                    ctx.violate("C08|integration-mqtt|too-many-transmissions", "on the MQTT transport a command was published more than 1 + min(max_retries, 3) times", {"call": rec, "publishes_vt": mine, "limit": limit, "episode": meta})
+                if not rec.get("open") and "return_vt" in rec and any(vt > rec["return_vt"] + 1e-9 for vt in mine):
+                    ctx.violate("C08|integration-mqtt|transmitted-after-completion", "a command was published after its caller had been given a result or an error", {"call": rec, "publishes_vt": mine, "episode": meta})
+        if pid == "C09":
+            ctx.count("mqtt.probes")
+            try:
+                await asyncio.wait_for(gwy.async_send_cmd(Command.from_attrs("RQ", CTL, "30C9", "0B"), max_retries=1, timeout=5, wait_for_reply=True), timeout=30)
+            except Exception as err:  # noqa: BLE001
+                ctx.violate(f"C09|integration-mqtt|probe-failed|{type(err).__name__}", "on the MQTT transport a fresh command to a responsive device fails after the episode", {"error": repr(err)[:160], "calls": history, "episode": meta})
+            for u in loop.unhandled[n_unhandled:]:
+                if "Coding error" in (u.get("text") or "") or (u.get("where") or "").startswith(("protocol", "transport")):
+                    ctx.violate(f"C09|integration-mqtt|unhandled|{u['type']}|{u['where']}", "on the MQTT transport an exception was left unhandled in the event loop", {"exception": u, "episode": meta})
+        ctx.ev()
+        ctx.count("mqtt.episodes")
+        outcomes = "+".join(sorted({"ok" if "result" in r else r.get("exc", "open") for r in history}))
+        ctx.seen(f"mqtt|callers={len(history)}|echo={script.p_echo}|rply={script.p_rply}|{'flap' if meta.get('status_flap') else ''}|{outcomes}")
+        try:
+            await asyncio.wait_for(gwy.stop(), timeout=5)
+        except Exception:  # noqa: BLE001
+            pass
+
+
 def run_integration(ctx, pid: str) -> None:
     for k in range(12 if ctx.quick else 300):
         trial = ctx.shard + k * ctx.nshards
@@ -190,3 +327,15 @@ def run_integration(ctx, pid: str) -> None:
             vloop.run(go)
         except vloop.Starved as err:
             ctx.inconclusive_because(f"integration episode starved the virtual clock: {err}")
+    for k in range(6 if ctx.quick else 150):
+        trial = ctx.shard + k * ctx.nshards
+        harness.reset_transport_globals()
+
+        async def gom(loop, trial=trial):
+            with clocks_patched(perf_counter=True):
+                await episode_mqtt(loop, ctx, pid, trial)
+
+        try:
+            vloop.run(gom)
+        except vloop.Starved as err:
+            ctx.inconclusive_because(f"MQTT integration episode starved the virtual clock: {err}")
